@@ -112,7 +112,35 @@ def extmodel_vs_calmodel(tier, seed):
             "cases": n, "detail": repr(bad[:5])}
 
 
+def iso_order(tier, seed):
+    """string order of ISO dates with 4-digit years = date order = order of the integer key y*10000+m*100+d"""
+    rnd = random.Random(seed)
+    bad = []
+    n = 0
+    prev = None
+    years = range(1000, 10000) if tier == "thorough" else list(range(1000, 1100)) + list(range(1890, 2110)) + list(range(9900, 10000))
+    for y in years:
+        for m in range(1, 13):
+            for d in range(1, M.dim(12 * y + m - 1) + 1):
+                cur = ("%04d-%02d-%02d" % (y, m, d), y * 10000 + m * 100 + d, M.ordinal(y, m, d), datetime.date(y, m, d).isoformat())
+                n += 1
+                if cur[0] != cur[3]:
+                    bad.append(cur)
+                if prev is not None and prev[2] + 1 == cur[2] and not (prev[0] < cur[0] and prev[1] < cur[1]):
+                    bad.append((prev, cur))
+                prev = cur
+    for _ in range(20000):
+        a = (rnd.randint(1000, 9999), rnd.randint(1, 12), rnd.randint(1, 28))
+        b = (rnd.randint(1000, 9999), rnd.randint(1, 12), rnd.randint(1, 28))
+        sa, sb = "%04d-%02d-%02d" % a, "%04d-%02d-%02d" % b
+        n += 1
+        if (sa < sb) != (a < b) or (sa <= sb) != (a[0] * 10000 + a[1] * 100 + a[2] <= b[0] * 10000 + b[1] * 100 + b[2]):
+            bad.append((a, b))
+    return {"name": "ISO date strings: string order = date order = integer key order (4-digit years)", "ok": not bad,
+            "cases": n, "detail": repr(bad[:3])}
+
+
 if __name__ == "__main__":
     which, tier, seed = sys.argv[1], sys.argv[2], int(sys.argv[3])
-    fn = {"calendar": calendar_vs_datetime, "z3cal": z3_vs_calmodel, "extmodel": extmodel_vs_calmodel}[which]
+    fn = {"calendar": calendar_vs_datetime, "z3cal": z3_vs_calmodel, "extmodel": extmodel_vs_calmodel, "isoorder": iso_order}[which]
     print(json.dumps(fn(tier, seed)))
